@@ -64,6 +64,7 @@ def scenarios(draw):
     if not any(a['a'] == 'create' for a in actions):
         actions.insert(0, {'a': 'create', 'obj': 0, 'v': 1, 'dt': draw(dts)})
     cluster = {'status_sub': draw(st.booleans()), 'api_latency': draw(st.sampled_from([None, 0.3, 0.3, 1.0])),
+               'rsp_latency': draw(st.sampled_from([None, None, 0.3, 1.0])),
                'watch_latency': draw(st.sampled_from([None, None, 0.1]))}
     return {'seed': draw(st.integers(0, 9999)), 'spec': spec, 'cluster': cluster, 'actions': actions}
 
